@@ -150,6 +150,9 @@ def gen_case(rng: Rng, i: int, tier: str):
               "omit_nums": r.chance(0.5), "dummy": r.pick([0, 0, 2, 3, 5, 18]), "dummy_tail": r.pick([0, 0, 4]), "emptyfile_vector_always": r.chance(0.2),
               "names_first": r.chance(0.8), "header": header, "password": password, "iv_seed": r.randrange(256), "no_substreams": r.chance(0.2),
               "header_crc": r.chance(0.8)}
+    if len(folders) >= 2 and rng.sub("mixedcrc").chance(0.15):
+        # CRCs on both levels at once: single-stream folders keep theirs in UnpackInfo, the other folders' streams in SubStreamsInfo
+        layout["crc"] = "mixed"
     rp = rng.sub("partialcrc")
     if len(folders) >= 2 and rp.chance(0.12):
         # folder CRCs for some folders only: a partially defined vector in UnpackInfo
